@@ -28,7 +28,7 @@ RULE = ("each run draws 0-4 Split branches of the four kinds (Source, fill/compu
         "reference scheduler over model branches and compares the complete event histories; one "
         "run in four exercises the common-type API (fill/compute, fill/request, __call__) or Zip "
         "instead; non-trivial = at least two branches or a stop, and a non-empty history; distinct = "
-        "distinct abstracted event-kind sequences"
+        "distinct abstracted event-kind sequences."
         " Since the seeded rounds also: post-elements that yield None, a branch element raising a"
         " Lena exception that is not a stop (must propagate), nested mixed Splits as branches, the"
         " same branch object listed twice, Zip with field names, the same Split run twice.")
